@@ -81,7 +81,11 @@ def set_sizes(fn, sizes):
     it = iter(sizes)
     for arg in fn.ast.args:
         if isinstance(arg.type, ListTypeAnn):
-            arg.type = ListTypeAnn(RealTypeAnn(None, None), next(it), None)
+            dims = next(it)
+            ann = RealTypeAnn(None, None)
+            for d in reversed(dims if isinstance(dims, list) else [dims]):
+                ann = ListTypeAnn(ann, d, None)
+            arg.type = ann
 
 
 def reject_reason(e: Exception) -> str:
@@ -385,6 +389,9 @@ HAND_CORES = [
     ('(FPCore (x y) :precision binary32 :round toPositive (+ (/ x 3) (! :round toNegative (/ y 3))))', 2),
     ('(FPCore (x y) (! :precision (float 5 12) :round toZero (let ([a (/ x 3)]) (! :precision binary16 (* a (/ y 7))))))', 2),
     ('(FPCore (x y) (if (< x y) (let ([x y] [y x]) (/ x y)) (let* ([x y] [y x]) (/ x (+ y 1)))))', 2),
+    ('(FPCore (x y) (! :precision binary32 (if (< x y) (! :round toZero (/ x 3)) (! :round toPositive (/ y 7)))))', 2),
+    ('(FPCore (x y) :precision binary32 (if (< x y) (! :round toZero (/ x 3)) (! :round toPositive (/ y 7))))', 2),
+    ('(FPCore (x y) (! :precision (float 5 12) :round toNegative (while (> k 0) ([k 2 (- k 1)] [a x (! :precision binary16 (/ a 3))]) (if (< a y) (! :round toZero (/ a 7)) a))))', 2),
 ]
 
 
@@ -407,6 +414,8 @@ def check_core(res: Result, text, nargs, inputs, features, origin):
         return
     sh = hashlib.blake2b(text.encode(), digest_size=8).hexdigest()
     nt = bool(features & {'let-multi', 'let*-multi', 'while', 'while*', 'for', 'for*', 'partial-annotation'})
+    if any(f.startswith('scoped-partial') for f in features):
+        res.cls('core:scoped-partial-annotation')
     for idx, args in enumerate(inputs):
         res.case()
         case = {'core': text, 'args': progen_encode(args), 'origin': origin}
@@ -620,6 +629,15 @@ def main(a0: fp.Real, a1: fp.Real):
             k = k - 1
     return a
 ''', ['R', 'R'], 'float'),
+    ('two-level-index', '''
+@fp.fpy
+def main(a0: list[list[fp.Real]], a1: fp.Real):
+    m = [[a1, a1 * 2, a1 / 3], [fp.round(0.1), a1 - 1, fp.round(7)]]
+    with {c1}:
+        s = a0[0][2] * m[1][0] + a0[1][0]
+        t = a0[1][2] - m[0][1] / 3
+    return (s, t, m[1][2], a0[0][1], sum(a0[1]), max(m[0]))
+''', ['M23', 'R'], 'float'),
     ('indexed-assign-local-list', '''
 @fp.fpy
 def main(a0: list[fp.Real], a1: fp.Real):
@@ -659,17 +677,28 @@ def template_cases(seed, tier):
                 apool = c12_gen.arg_pool(c1, False)
             else:
                 apool = None
-            sizes = [int(t[1:]) for t in tys if t.startswith('L')]
+            sizes = [int(t[1:]) if t[0] == 'L' else [int(t[1]), int(t[2])] for t in tys if t[0] in 'LM']
             inputs = []
             finite_only = 'fp.REAL' in src or 'FixedContext' in src or 'fp.INTEGER' in src or 'MPFixedContext' in src
             for _ in range(8 if tier == 'thorough' else 5):
                 args = []
                 for t in tys:
-                    p = apool if apool is not None else T_ARGS[t[0] if t[0] != 'L' else 'R']
+                    p = apool if apool is not None else T_ARGS[t[0] if t[0] not in 'LM' else 'R']
                     if finite_only:
                         p = [x for x in p if x == x and abs(x) != float('inf')]
                     if t.startswith('L'):
                         args.append([ch.choice(p) for _ in range(int(t[1:]))])
+                    elif t.startswith('M'):
+                        cells = [x for x in dict.fromkeys(p) if x == x]
+                        rows = []
+                        for _r in range(int(t[1])):
+                            row = []
+                            for _c in range(int(t[2])):
+                                x = ch.choice(cells)
+                                cells.remove(x)
+                                row.append(x)
+                            rows.append(row)
+                        args.append(rows)
                     else:
                         args.append(ch.choice(p))
                 inputs.append(args)
